@@ -375,7 +375,7 @@ class MultiRelationLink(IRelationLink[TCircuitOperation], Generic[TCircuitOperat
         # Iterate over reference node and determine latest
         latest_node: TCircuitOperation = self._reference_nodes[0]
         for node in self._reference_nodes:
-            if node.end_time > latest_node.end_time:
+            if node.end_time >= latest_node.end_time:
                 latest_node = node
         return latest_node
 
